@@ -9,6 +9,10 @@ Decided statically:
   C19.median  the median family indexes only a list derived from sorted(..), never the raw parameter (order
               invariance); checked on library code with the independent .ckl front end
   C19.alias   set-algebra library functions do not alias an operand as their result (shared with C16.ckl)
+  C19.names   every name a bundled library function uses is provided by its own module (definitions, parameters,
+              loop variables, imports, bind_native) or by the root environment of the DEFAULT configuration
+              (Sys and Core unqualified, not the legacy imports): otherwise the function - union, prod, ... -
+              fails with 'Symbol not defined' instead of computing its result
 Not decided: everything else in the statement (set algebra results, unique, flatten, zip, chunks, reduce, gcd,
 lcm, mean ...) - textbook definitions over runtime values.
 """
@@ -30,13 +34,32 @@ LEVEL_TEXT = (
     "functions are value-level and are not decided.")
 LEVEL_NOTE = "Trusted: Python int ** int with non-negative exponent is exact; the .ckl tokenizer."
 ASSUMPTIONS = []
-FLOORS = {"C19.pow": 2, "C19.width": 8, "C19.median": 3}
+FLOORS = {"C19.pow": 2, "C19.width": 8, "C19.median": 3, "C19.names": 12}
 
 MASKS = {"0xFFFFFFFF", "4294967295", "2 ** 32 - 1", "(1 << 32) - 1"}
 
 
+def names(ctx, model):
+    from .. import cklnames
+    try:
+        res, root = cklnames.unresolved(model.ckl_modules)
+    except cklsrc.CklTokenError as e:
+        ctx.broken("modules/*.ckl", str(e))
+    if len(root) < 60:
+        ctx.broken("modules/base.ckl", f"only {len(root)} root names derived from base.ckl / sys.ckl / core.ckl")
+    for fn, bad in sorted(res.items()):
+        ctx.ob("C19.names", f"modules/{fn}: every name used is bound in the module or in the default root "
+               f"environment", not bad, ", ".join(n for n, _ in bad))
+        for nm, line in bad:
+            ctx.fail("C19.names", f"modules/{fn}", None,
+                     f"`{nm}` is used in modules/{fn} but neither the module nor the default (non-legacy) root "
+                     f"environment defines it: the library function fails with \"Symbol '{nm}' not defined\" when "
+                     f"it is called", expr=f"{fn}: {nm}", file=f"src/ckl/modules/{fn}", line=line)
+
+
 def run(ctx):
     model = ctx.model
+    names(ctx, model)
     # ---------------------------------------------------------------- pow
     fp = model.method(P, "FuncPow", "execute")
     g = CFG(fp.node, implicit_exc=False)
